@@ -182,6 +182,8 @@ theorem act_nd (c : Conn) (f : Bool) (a : Act) (h : NoDisc c) : NoDisc (act c f 
     · exact h
   | stopRead => simp only [act]; exact NoDisc.of_same (handOff_sameD _ _ _ _ _ stopReadInLoop_sameD) h
   | startRead => simp only [act]; exact NoDisc.of_same (handOff_sameD _ _ _ _ _ startReadInLoop_sameD) h
+  | setWc k => exact NoDisc.of_same (c := c) ⟨rfl, rfl⟩ h
+  | setHwm k m => exact NoDisc.of_same (c := c) ⟨rfl, rfl⟩ h
 
 theorem actLoop_nd (c : Conn) (a : Act) (h : NoDisc c) : NoDisc (actLoop c a) := act_nd c false a h
 theorem actForeign_nd (c : Conn) (a : Act) (h : NoDisc c) : NoDisc (actForeign c a) := act_nd c true a h
